@@ -80,6 +80,21 @@ func parseOptions() options {
 	return options
 }
 
+// sameFile reports whether both paths exist and name the same file.
+func sameFile(path string, otherPath string) bool {
+	stat, err := os.Stat(path)
+
+	if err != nil {
+		return false
+	}
+	otherStat, err := os.Stat(otherPath)
+
+	if err != nil {
+		return false
+	}
+	return os.SameFile(stat, otherStat)
+}
+
 func main() {
 	options := parseOptions()
 	t := transpiler.New()
@@ -94,7 +109,13 @@ func main() {
 		file := filepath.Base(in)
 		file = file[0 : len(file)-len(filepath.Ext(in))] // Remove extension.
 
-		err = os.WriteFile(filepath.Join(options.out, fmt.Sprintf("%s.%s", file, conv.Extension())), []byte(dump), 0777)
+		outFile := filepath.Join(options.out, fmt.Sprintf("%s.%s", file, conv.Extension()))
+
+		// Never overwrite the input (tsh -i prog.sh -o . -t bash).
+		if sameFile(in, outFile) {
+			panic(fmt.Errorf("output file %s is the input file", outFile))
+		}
+		err = os.WriteFile(outFile, []byte(dump), 0777)
 
 		if err != nil {
 			panic(err)
